@@ -518,10 +518,32 @@ def _generate_cyclic_eems(rng, index, tier):
                     x["args"]["Weights"][(pos + 1) % len(v)] = 1
         else:
             x["args"][pname] = yname
+        v2 = []
+        r = rng.random()
+        if r < 0.3:
+            # some commands (the one that closes the cycle among them, if it has a 2.0 name) are written in the EEMS 2.0
+            # dialect; such a file cannot carry OutFileName arguments, so it gets no sinks
+            from ..refmodel.declarations import V2_NAMES
+            if rng.random() < 0.4:
+                cmds.append({"name": "cp", "cmd": "Copy", "args": {"InFieldName": "cp"}})     # a field copied onto itself
+                v2.append("cp")
+            v2 += [c["name"] for c in cmds if c["cmd"] in V2_NAMES and c["name"] not in v2 and
+                   (c["name"] == xname or rng.random() < 0.4)]
+        elif r < 0.65:
+            # output commands that do not depend on the cycle (the reads are upstream of it)
+            reads = [c["name"] for c in cmds if c["cmd"] == "EEMSRead"]
+            if rng.random() < 0.6:
+                cmds.append({"name": "wsink", "cmd": "EEMSWrite",
+                             "args": {"OutFileName": "out.csv", "OutFieldNames": rng.sample(reads, rng.randint(1, len(reads)))}})
+            if rng.random() < 0.6:
+                args = {"InFieldNames": rng.sample(reads, rng.randint(1, len(reads)))}
+                if rng.random() < 0.5:
+                    args["OutFileName"] = "print.txt"
+                cmds.append({"name": "psink", "cmd": "PrintVars", "args": args})
         order = list(range(len(cmds)))
         rng.shuffle(order)
         return {"engine": ENGINE, "prop": "C14", "family": "cyclic-eems", "config": "cyclic-eems", "model": model,
-                "order": order, "nodes": [], "ops": [["RUN"]], "faults": [], "back_edge": [xname, pname, yname]}
+                "order": order, "nodes": [], "ops": [["RUN"]], "faults": [], "back_edge": [xname, pname, yname], "v2": v2}
     return None
 
 
@@ -541,8 +563,12 @@ def _execute_cyclic_eems(sc):
     log = EventLog(cap=200 * (n + 8) + 1000)
     res.log = log
     log.emit("scenario", prop="C14", config="cyclic-eems", n=n, back_edge=sc.get("back_edge"))
-    nodes = modelsim.program_nodes(cmds, sc.get("order"), 0)
+    nodes = modelsim.program_nodes(cmds, sc.get("order"), 0, tuple(sc.get("v2") or ()))
     text, _ = rend(nodes, PLAIN)
+    if sc.get("v2"):
+        res.probe("cyclic model with commands in the EEMS 2.0 dialect")
+    if any(c["name"] in ("wsink", "psink") for c in cmds):
+        res.probe("cyclic model with output commands that do not depend on the cycle")
     fs = SimFS(log, res, files={model["table"]["path"]: modelgen.csv_text(model["table"])}, dirs=[modelgen.WORK])
 
     def runaway(key, depth):
